@@ -142,3 +142,7 @@ Proof. vm_compute. reflexivity. Qed.
 
 Lemma hashlib_users_tie : hashlib_users = [certs_file; lit "utils/logging.py"].
 Proof. vm_compute. reflexivity. Qed.
+
+(* the certificate the PyOpenSSL layer takes from the connection is the peer's own (leaf) certificate *)
+Lemma conn_peer_certificate_tie : conn_peer_certificate_is_the_leaf = true.
+Proof. reflexivity. Qed.
